@@ -87,6 +87,10 @@ func StructConfigs(thorough bool, caches []string, formats []string) []*world.Co
 	// non-initial start: a height-3 tree with chains of stacked pass-through nodes (10 user keys, only layer-0
 	// keys under a layer-3 key), all inserted and persisted, then every history of length <= 3 from there
 	cs = append(cs, ChainSeeded(f0, 3))
+	// the default branch factor 16 needs 17+ entries for height 1: a seeded start, then all histories of length <= 2
+	cs = append(cs, Seeded16(formats[len(formats)-1], 2))
+	// values with indirection
+	cs = append(cs, world.IntCfg(2, []int{1, 2, 3, 4, 8}, []interface{}{[]int{1}, []int{2, 3}}, []int{}, f0, "none"))
 	cs = append(cs, world.StringCfg(2, []uint8{0, 1, 0, 2, 0}, f0, "none"))
 	cs = append(cs, world.BytesCfg(2, []uint8{0, 1, 0, 2, 0}, formats[len(formats)-1], "none"))
 	cs = append(cs, world.StructCfg(2, []uint8{0, 1, 0, 2, 0}, formats[len(formats)-1], "none"))
@@ -103,6 +107,20 @@ func ChainSeeded(format string, d int) *world.Config {
 	c.Seed = append(c.Seed, world.Op{Kind: world.OpReload})
 	c.MaxDepth = d
 	c.Name = fmt.Sprintf("seeded-height3-chain/%s/depth%d", c.Name, d)
+	return c
+}
+
+// Seeded16: uint keys at the default branch factor 16, 20 of them inserted and persisted (height 1).
+func Seeded16(format string, d int) *world.Config {
+	keys := urange(1, 18)
+	keys = append(keys, uint(32), uint(48), uint(256))
+	c := world.UintCfg(16, keys, 1, format, "none")
+	for k := 0; k < 20; k++ {
+		c.Seed = append(c.Seed, world.Op{Kind: world.OpIns, K: k, V: 0})
+	}
+	c.Seed = append(c.Seed, world.Op{Kind: world.OpReload})
+	c.MaxDepth = d
+	c.Name = fmt.Sprintf("seeded-bf16/%s/depth%d", c.Name, d)
 	return c
 }
 
